@@ -325,6 +325,11 @@ class MapOverlap(ArrayExpr):
             else:
                 if not self.allow_rechunk:
                     return None
+                if not self.trim_output:
+                    # Untrimmed, this axis of the output still carries the
+                    # halos: its coordinates are not the input's, so the slice
+                    # cannot be translated.
+                    return None
 
                 # Expand slice by overlap depth for input
                 # But respect array boundaries
